@@ -14,6 +14,24 @@ FLOOR_BODIES = 300
 FLOOR_CALLS = 1400
 
 
+# rules of one pack that are also necessary conditions of another property: (pack, rule prefixes, key filter, why)
+SHARED = {
+    "C01": [("C15", ("C15.S1", "C15.S3", "C15.S4"), None, "the polygon that must contain the point is produced through the inverse face projection")],
+    "C02": [("C01", ("C01.R5",), None, "interior points map back only if containment is decided by the exact sign of the cross product"),
+            ("C15", ("C15.S1", "C15.S3", "C15.S4"), None, "the reported centre and boundary come from the inverse face projection, the lookup from the forward one")],
+    "C04": [("C15", ("C15.S1", "C15.S3", "C15.S4"), None, "cell areas are equal only if the boundary is unprojected with the matching spherical/squashed triangle and an accurate angle helper")],
+    "C06": [("C02", ("C02.R2",), None, "IDs keep their meaning only if lookup and geometry use the same quintant/segment relabelling"),
+            ("C05", ("C05.R4",), None, "stored IDs keep their meaning only if the bit layout is the documented one"),
+            ("C18", ("C18.D2", "C18.D4"), None, "the face frame and nearest-face choice define which ID a point gets"),
+            ("C17", ("C17.H",), None, "the curve tables define which ID a point gets within a quintant")],
+    "C08": [("C20", ("C20.L3",), None, "sibling detection in compact relies on the stride between siblings")],
+    "C09": [("C07", ("C07.T2", "C07.T3"), None, "uncompact delegates to cell_to_children, whose fan-out and bit placement decide the descendants")],
+    "C11": [("C04", ("C04.R1",), None, "the ring has vertices*n points only if it is built from the length-exact split pentagon")],
+    "C17": [("C14", ("C14.O",), "a5::core::hilbert::", "the position<->cell maps are total for depths 1..29 only if no index/overflow site in the curve code can fail")],
+    "C20": [("C07", ("C07.T3",), None, "descendants stay inside their ancestor's ID interval only if children are placed two bits per level below the parent's bits")],
+}
+
+
 class Ctx:
     pass
 
@@ -40,7 +58,40 @@ def main():
                  "adts": len(ctx.facts.adts), "crate": ctx.facts.crate, "build": ctx.facts.opts}
     run.floor("UNITS", "MIR bodies analysed", ctx.facts.n_bodies(), FLOOR_BODIES)
     run.floor("UNITS", "call terminators analysed", ctx.facts.n_calls(), FLOOR_CALLS)
-    mod.run(ctx)
+    try:
+        mod.run(ctx)
+    except Exception as e:   # an unrecognised program shape inside a rule: cannot decide -> fail closed, with a diagnosable line
+        import traceback
+        tb = traceback.extract_tb(e.__traceback__)[-1]
+        run.bad(prop + ".ENGINE", "analysis-error", "rule pack stopped at %s:%d with %s: %s - the code has a shape the rule does not recognise; undecided, fails closed" % (
+            os.path.basename(tb.filename), tb.lineno, type(e).__name__, str(e)[:200]))
+    for pack, prefixes, keypart, why in SHARED.get(prop, ()):
+        sub = Ctx()
+        sub.tier, sub.work, sub.facts, sub.bad, sub.facts_release = ctx.tier, ctx.work, ctx.facts, ctx.bad, ctx.facts_release
+        sub.run = Run(pack, tier, "other")
+        try:
+            importlib.import_module(".rules.%s" % pack.lower(), __package__).run(sub)
+        except Exception as e:
+            run.bad(pack + ".ENGINE", "analysis-error", "shared rule pack %s stopped with %s: %s; undecided, fails closed" % (pack, type(e).__name__, str(e)[:200]))
+            continue
+        n = 0
+        for i in sub.run.instances:
+            if i.kind == "floor" or not any(i.rule == p or i.rule.startswith(p) for p in prefixes):
+                continue
+            if keypart and keypart not in i.key:
+                continue
+            i.reason = "%s [shared necessary condition, from the %s pack: %s]" % (i.reason, pack, why)
+            run.instances.append(i)
+            n += 1
+        for c in sub.run.controls:
+            if any(c[0].startswith(p) for p in prefixes):
+                run.controls.append(c)
+        for a in sub.run.assumptions:
+            if keypart and keypart in a:
+                run.assume(a)
+        if n == 0:
+            run.bad(prop + ".SHARED", "shared:%s:%s" % (pack, ",".join(prefixes)), "the shared rules produced no instance (fails closed)")
+        run.rule_text += " ; shared from %s: %s (%s)" % (pack, ", ".join(prefixes), why)
     rc = run.finish()
     if replay:
         want = json.load(open(replay))["instance"]
